@@ -55,7 +55,7 @@ def family_notations():
         ('syn_at_x1', 1, p.App(p.MetaVar(0), p.EVar(1)), '({0} @ x1)'),
         ('syn_imp_x2', 1, p.Implies(p.EVar(2), p.MetaVar(0)), '(x2 ~> {0})'),
         ('syn_ex0_pair', 2, p.Exists(0, p.App(p.MetaVar(0), p.MetaVar(1))), '(E0 {0} {1})'),
-        ('syn_mu1', 1, p.Mu(1, p.App(p.SVar(1), p.MetaVar(0))), '(lfp1 {0})'),
+        ('syn_mu1', 1, p.Mu(1, p.App(p.SVar(1), p.MetaVar(0, positive=(p.SVar(1),)))), '(lfp1 {0})'),   # machine-well-formed: the hole is declared positive in X1
         ('syn_in_X0', 1, p.App(p.SVar(0), p.MetaVar(0)), '(X0 @ {0})'),
         ('syn_second', 2, p.App(p.Symbol('second'), p.MetaVar(1)), 'second({0}, {1})'),
         ('syn_nest', 1, p.neg(p.App(p.MetaVar(0), p.EVar(0))), '~({0} @ x0)'),
